@@ -140,10 +140,26 @@ def run(tier):
         if kind == "str" and level in (None, 2):
             for cs in ("emptykey", "oddkey", "method"):
                 fams.append(("errval",) + gen_prot.errval_program(kind, catcher, level, via, cs) + (None,))
+    # capturing functions retried after a failed protected call (the failed attempt's upvalues must be gone)
+    import gen_clos
+    for p, root in gen_clos.retry_cases():
+        fams.append(("retry", p, root, None))
+    # protected calls at every call depth 1..20 (frame-stack segment boundaries), fixed and auto-growing call stack
+    ndepth = 0
+    for target, catcher in itertools.product(range(1, 21), ["pcall", "xpcall"]):
+        for _ in range(2):
+            fams.append(("depth",) + gen_prot.depth_program(target, catcher) + (None,))
+            ndepth += 1
     progsA = lsem.number(fams)
+    flip = False
+    for pr in progsA:
+        if pr["fam"] == "depth":
+            if flip:
+                pr["opts"] = {"msm": True}
+            flip = not flip
     verd, cov, allv, allo, stats = lsem.run_families(
         PROP, tier, progsA,
-        "(A) error(v[,level]) for v of 9 kinds x level {default,1,2,0} x raised via error/host RaiseError/Go panic in a host function/assert x caught by pcall/xpcall/nested pcall/nothing; (B) corpus of protected bodies (pcall, xpcall, nested, inside a metamethod, inside a for-in iterator, unprotected up to the Go-side PCall) with a one-shot fault at every dispatch poll",
+        "(A) error(v[,level]) for v of 9 kinds x level {default,1,2,0} x raised via error/host RaiseError/Go panic in a host function/assert x caught by pcall/xpcall/nested pcall/nothing; capturing functions retried after failed protected calls; protected calls at call depth 1..20 with the fixed and the auto-growing (MinimizeStackMemory) frame stack; (B) corpus of protected bodies (pcall, xpcall, nested, inside a metamethod, inside a for-in iterator, unprotected up to the Go-side PCall) with a one-shot fault at every dispatch poll",
         [], t0, max_steps=20000, nontrivial_min_emits=2)
     # ---- (B) fault sweep
     nprog = 260 if thorough else 36
